@@ -21,7 +21,7 @@ for sd in sorted(glob.glob("/tmp/seed-out/*/m*")):
         (shutil.copytree if os.path.isdir(p) else shutil.copy)(p, os.path.join(dst, f))
     meta["breaks_property"] = pid
     meta["confirmed_by_me"] = {k: c[k] for k in ("demo_clean_pass", "applies", "builds", "demo_mutant_fails", "suite_passes")}
-    meta["confirm_cmd"] = "tools/confirm_seed.py (scratch worktree at 7dee0a6: demo passes clean, patch applies, go build ./..., demo fails with patch, go test ./tars/... passes apart from the pre-existing TestKetamaHashAlg_Hash/2.2.2.2)"
+    meta["confirm_cmd"] = "tools/confirm_seed.py (scratch worktree at %s:" % c.get("base", "7dee0a6") + " demo passes clean, patch applies, go build ./..., demo fails with patch, go test ./tars/... passes apart from the pre-existing TestKetamaHashAlg_Hash/2.2.2.2)"
     meta["demo_mutant_tail"] = c.get("demo_mutant_tail", "")[-300:]
     json.dump(meta, open(os.path.join(dst, "meta.json"), "w"), indent=1)
     print("kept", dst)
